@@ -35,14 +35,14 @@ TResult == /\ Ev.e = "Result"
            /\ res' = SelectSeq(Ev.segs, LAMBDA s : s.k # 2)
            /\ UNCHANGED <<g, lat>>
 
-RawLat == [nodes |-> Ev.nodes,
-        links |-> [i \in DOMAIN Ev.links |-> <<Ev.links[i][1] + 1, Ev.links[i][2] + 1, Ev.links[i][3], Ev.links[i][4]>>],
-        start |-> Ev.start + 1, end |-> Ev.end + 1, frames |-> Ev.frames]
+RawLatOf(E) == [nodes |-> E.nodes,
+        links |-> [i \in DOMAIN E.links |-> <<E.links[i][1] + 1, E.links[i][2] + 1, E.links[i][3], E.links[i][4]>>],
+        start |-> E.start + 1, end |-> E.end + 1, frames |-> E.frames]
 
 \* name the clause that fails (the driver uses it to key the violation)
 Clause(name, cond) == IF cond THEN TRUE ELSE PrintT(<<"CLAUSE-FAILED", name, l>>) /\ FALSE
 
-Lat0 == WithAdj(RawLat)
+Lat0 == WithAdj(RawLatOf(Ev))
 
 C11OK(Lat) == /\ Clause("again-same-object", Ev.again_same)     \* asking again without new audio: the same object
          /\ Clause("frames", Ev.frames = Ev.scored)        \* built over exactly the frames searched
@@ -54,35 +54,48 @@ C11OK(Lat) == /\ Clause("again-same-object", Ev.again_same)     \* asking again 
          /\ Clause("paths-are-grammar-paths", g.ok => PathsAreGrammarPaths(Lat, g.G, g.A))
          /\ Clause("best-seg-is-path", BestSegIsPath(Lat, res))
 
-Eps == 4 * (Len(Ev.links) + 2)
 Abs(x) == IF x < 0 THEN -x ELSE x
-C12LatOK(Lat) ==
+\* E: a Lattice event, or the lattice an NBest event shows as it is after the walk (pre = clause-name prefix)
+C12LatOK(Lat, E, pre) ==
+    LET Eps == 4 * (Len(E.links) + 2) IN
     \* a lattice has a start-to-end path, so the best-path search must find one
-    /\ Clause("bestpath-exists", Ev.hasbest)
-    /\ Ev.hasbest =>
-         /\ Clause("posterior-again-le-1", Ev.post2.best <= Eps /\ Ev.post2.maxlink <= Eps)
-         /\ Clause("bestpath-is-start-end-path",
-                   IsStartEndPath(Lat, [i \in DOMAIN Ev.best.path |->
-                                    <<Ev.best.path[i][1] + 1, Ev.best.path[i][2] + 1, Ev.best.path[i][3]>>]))
-         /\ Clause("bestpath-score-is-sum", SumAscr(Ev.best.path) + Ev.final_ascr = Ev.best.score)
+    /\ Clause(pre \o "bestpath-exists", E.hasbest)
+    /\ E.hasbest =>
+         /\ Clause(pre \o "posterior-again-le-1", E.post2.best <= Eps /\ E.post2.maxlink <= Eps)
+         /\ Clause(pre \o "bestpath-is-start-end-path",
+                   IsStartEndPath(Lat, [i \in DOMAIN E.best.path |->
+                                    <<E.best.path[i][1] + 1, E.best.path[i][2] + 1, E.best.path[i][3]>>]))
+         /\ Clause(pre \o "bestpath-score-is-sum", SumAscr(E.best.path) + E.final_ascr = E.best.score)
          \* the highest-scoring start-to-end path
-         /\ Clause("bestpath-is-best", Ev.best.score - Ev.final_ascr = BestScore(Lat))
-         /\ Clause("bestpath-hyp-is-path", HypIsLatticePath(Lat, Ev.best.hyp))
-         /\ Clause("link-posterior-le-1", \A i \in DOMAIN Ev.post.links : Ev.post.links[i][5] <= Eps)
-         /\ Clause("bestpath-posterior-le-1", Ev.post.best <= Eps)
-         /\ Clause("forward-equals-backward", Abs(Ev.post.norm - Ev.post.bwd) <= Eps)
+         /\ Clause(pre \o "bestpath-is-best", E.best.score - E.final_ascr = BestScore(Lat))
+         /\ Clause(pre \o "bestpath-hyp-is-path", HypIsLatticePath(Lat, E.best.hyp))
+         /\ Clause(pre \o "link-posterior-le-1", \A i \in DOMAIN E.post.links : E.post.links[i][5] <= Eps)
+         /\ Clause(pre \o "bestpath-posterior-le-1", E.post.best <= Eps)
+         /\ Clause(pre \o "forward-equals-backward", Abs(E.post.norm - E.post.bwd) <= Eps)
 
 TLattice == /\ Ev.e = "Lattice"
             /\ IF Ev.null THEN lat' = NoLat
                ELSE LET LL == TLCEval(Lat0)
-                    IN /\ (WHICH = "C11" => C11OK(LL)) /\ (WHICH = "C12" => C12LatOK(LL))
+                    IN /\ (WHICH = "C11" => C11OK(LL)) /\ (WHICH = "C12" => C12LatOK(LL, Ev, ""))
                        /\ lat' = [ok |-> TRUE, L |-> LL]
             /\ UNCHANGED <<g, res>>
 
+\* an NBest event may show the lattice as decoder_lattice() returns it after the walk: that is then the lattice the
+\* list is judged against (a list taken from a stale lattice is not a list of its paths), and its best path and
+\* posteriors, computed again after the walk, must be as sound as before
+HasAfter == "after" \in DOMAIN Ev
+AfterLat == TLCEval(WithAdj(RawLatOf(Ev.after)))
 C12NBestOK == /\ Clause("nbest-non-increasing", NonIncreasing([i \in DOMAIN Ev.items |-> Ev.items[i].score] \o Ev.more))
-              /\ Clause("nbest-hyp-is-lattice-path",
-                        lat.ok => \A i \in DOMAIN Ev.items : HypIsLatticePath(lat.L, Ev.items[i].hyp))
-              /\ Clause("nbest-without-lattice", (~lat.ok) => Ev.items = <<>>)
+              /\ IF HasAfter
+                 THEN IF Ev.after.null THEN Clause("nbest-without-lattice", Ev.items = <<>>)
+                      ELSE LET LL == AfterLat
+                           IN /\ Clause("nbest-hyp-is-path-of-current-lattice",
+                                        \A i \in DOMAIN Ev.items : HypIsLatticePath(LL, Ev.items[i].hyp))
+                              /\ Clause("nbest-of-a-lattice-is-not-empty", Ev.items # <<>>)
+                              /\ C12LatOK(LL, Ev.after, "after-nbest:")
+                 ELSE /\ Clause("nbest-hyp-is-lattice-path",
+                                lat.ok => \A i \in DOMAIN Ev.items : HypIsLatticePath(lat.L, Ev.items[i].hyp))
+                      /\ Clause("nbest-without-lattice", (~lat.ok) => Ev.items = <<>>)
 
 TNBest == /\ Ev.e = "NBest"
           /\ (WHICH = "C12") => C12NBestOK
